@@ -88,3 +88,55 @@ Proof. intros Hi Hn (Hc & Ht & _).
   - apply Z.eqb_eq in E. rewrite wrap32_sub_wrap32 in E. exfalso. exact (wrap32_plus3_neq _ E).
   - rewrite Hc. replace (n + 1 =? n) with false by (symmetry; apply Z.eqb_neq; lia).
     unfold holds_rotate_late, meta_eqb. rewrite !Z.eqb_refl. reflexivity. Qed.
+
+(* ---- a late rotate_log caller any number of rotations behind ---- *)
+
+Lemma wrap32_neq_close a b : 0 < a - b < two32 -> wrap32 a <> wrap32 b.
+Proof. unfold wrap32, two31, two32. intros H E.
+  pose proof (Z.div_mod (a + 2147483648) 4294967296 ltac:(lia)).
+  pose proof (Z.div_mod (b + 2147483648) 4294967296 ltac:(lia)).
+  pose proof (Z.mod_pos_bound (a + 2147483648) 4294967296 ltac:(lia)).
+  pose proof (Z.mod_pos_bound (b + 2147483648) 4294967296 ltac:(lia)).
+  lia. Qed.
+
+Lemma c17_meta_term_ids init N o0 o1 o2 i :
+  0 <= o0 < two32 -> 0 <= o1 < two32 -> 0 <= o2 < two32 -> 0 <= i < 3 ->
+  exists d, -2 <= d <= 0 /\ term_id_of (get_tail (c17_meta init N o0 o1 o2) i) = wrap32 (init + N + d).
+Proof. intros H0 H1 H2 Hi. unfold c17_meta.
+  set (t := wrap32 (init + N)). set (a := N mod 3).
+  assert (Hw : forall x, in_i32 (wrap32 x) = true) by (intro; apply wrap32_range).
+  assert (Ht1 : wrap32 (t + 1 - 3) = wrap32 (init + N + -2)).
+  { unfold t. replace (wrap32 (init + N) + 1 - 3) with (wrap32 (init + N) + (-2)) by ring. rewrite wrap32_add_wrap32. reflexivity. }
+  assert (Ht2 : wrap32 (t + 2 - 3) = wrap32 (init + N + -1)).
+  { unfold t. replace (wrap32 (init + N) + 2 - 3) with (wrap32 (init + N) + (-1)) by ring. rewrite wrap32_add_wrap32. reflexivity. }
+  assert (Ht0 : t = wrap32 (init + N + 0)) by (unfold t; f_equal; ring).
+  assert (Hi' : i = 0 \/ i = 1 \/ i = 2) by lia.
+  destruct Hi' as [-> | [-> | ->]]; unfold get_tail; cbn [tail0 tail1 tail2 Z.eqb];
+    repeat match goal with |- context [if ?c then _ else _] => destruct c end;
+    rewrite term_id_of_raw_off by (try apply Hw; assumption);
+    first [ exists 0; split; [lia | exact Ht0] | exists (-2); split; [lia | exact Ht1] | exists (-1); split; [lia | exact Ht2] ].
+Qed.
+
+Lemma oracle_rotate_late_k_model m init n k o0 o1 o2 :
+  in_i32 init = true -> 0 <= n -> 1 <= k -> n + k < two31 - 1 ->
+  0 <= o0 < two32 -> 0 <= o1 < two32 -> 0 <= o2 < two32 ->
+  let s := c17_meta init (n + k) o0 o1 o2 in
+  holds_rotate_late s (rotate_log m s n (wrap32 (init + n))) = true.
+Proof. intros Hi Hn Hk Hnk H0 H1 H2 s.
+  unfold rotate_log, add32, chk32.
+  assert (Hrr : in_i32 (n + 1) = true) by (unfold in_i32, two31 in *; lia).
+  rewrite Hrr. cbn [bind].
+  assert (Hidx : index_by_term_count (n + 1) = (n + 1) mod 3).
+  { unfold index_by_term_count, PARTITION_COUNT, GenConsts.PARTITION_COUNT. rewrite rem3_nonneg by lia.
+    apply wrap32_id. pose proof (Z.mod_pos_bound (n + 1) 3 ltac:(lia)). unfold in_i32, two31. lia. }
+  rewrite Hidx.
+  destruct (c17_meta_term_ids init (n + k) o0 o1 o2 ((n + 1) mod 3) H0 H1 H2
+              ltac:(apply Z.mod_pos_bound; lia)) as (d & Hd & Htid).
+  fold s in Htid. rewrite Htid.
+  unfold PARTITION_COUNT, GenConsts.PARTITION_COUNT.
+  rewrite wrap32_add_wrap32, wrap32_sub_wrap32.
+  destruct (wrap32 (init + (n + k) + d) =? wrap32 (init + n + 1 - 3)) eqn:E.
+  - apply Z.eqb_eq in E. exfalso. revert E. apply wrap32_neq_close. unfold two31, two32 in *. lia.
+  - assert (Hc : count s = n + k) by reflexivity. rewrite Hc.
+    replace (n + k =? n) with false by (symmetry; apply Z.eqb_neq; lia).
+    unfold holds_rotate_late, meta_eqb. rewrite !Z.eqb_refl. reflexivity. Qed.
